@@ -499,6 +499,13 @@ func FlowFactGen(use ssa.Instruction, establishes func(Fact) bool, gens func(ssa
 						return true
 					}
 				}
+				// `a && b` evaluated into a φ (the case of a tagless switch): when the φ is true b is true, and so is a,
+				// tested on the only way into b's block — provided nothing on that straight line to here kills the fact
+				for _, f := range phiChainFacts(Fact{iff.Cond, truth, p}, kills) {
+					if establishes(f) {
+						return true
+					}
+				}
 			}
 		}
 		return out[p.Index]
@@ -567,4 +574,54 @@ func FlowNonNil(v ssa.Value, use ssa.Instruction) bool {
 			st, ok := ins.(*ssa.Store)
 			return ok && MayClobber(Sym(st.Addr), deps)
 		})
+}
+
+// phiChainFacts: for a short-circuit φ known to be f.Truth, the tests on the single-entry chain of blocks leading to
+// the operand that decided it (the dominating `a` of `a && b`), as long as no instruction between that test and the
+// branch on the φ kills the fact being tracked.
+func phiChainFacts(f Fact, kills func(ssa.Instruction) bool) []Fact {
+	phi, ok := f.Cond.(*ssa.Phi)
+	if !ok {
+		return nil
+	}
+	var livePred *ssa.BasicBlock
+	n := 0
+	for i, e := range phi.Edges {
+		if v, isC := ConstBool(e); isC && v != f.Truth {
+			continue
+		}
+		n++
+		livePred = phi.Block().Preds[i]
+	}
+	if n != 1 || livePred == nil {
+		return nil
+	}
+	clean := func(b *ssa.BasicBlock) bool {
+		for _, ins := range b.Instrs {
+			if kills != nil && kills(ins) {
+				return false
+			}
+		}
+		return true
+	}
+	if !clean(phi.Block()) {
+		return nil
+	}
+	var out []Fact
+	for cur, steps := livePred, 0; steps < 8; steps++ {
+		if len(cur.Preds) != 1 || !clean(cur) {
+			break
+		}
+		pp := cur.Preds[0]
+		if len(pp.Instrs) == 0 || len(pp.Succs) != 2 || pp.Succs[0] == pp.Succs[1] {
+			break
+		}
+		iff, isIf := pp.Instrs[len(pp.Instrs)-1].(*ssa.If)
+		if !isIf {
+			break
+		}
+		out = append(out, expandPhiFacts([]Fact{{iff.Cond, pp.Succs[0] == cur, pp}}, 0, false)...)
+		cur = pp
+	}
+	return out
 }
